@@ -41,6 +41,16 @@ package main
 // the "Preparing result channels" message of that run for a few milliseconds (stat
 // `signal:stalled-writes` shows the hook is still hit).
 //
+// The `rawinput` stream (every run): raw inputs the step's schema rejects although the step would be
+// content with an empty object - an untyped nil `InputData`, nil inside, a list, a string, a number -
+// on a step whose input has only optional and defaulted properties (`opt`), over v3 and v1. The
+// client has to pass the input on as it is: in-process CallStep rejects nil, so Execute must too.
+//
+// The `blank` stream (every run): an Execute whose step ID is blank (the server answers it with a
+// step-fatal error that carries no run ID) on its own, followed by more Executes on the same client,
+// serially and as a concurrent burst; every call must return within the watchdog with its own
+// in-process result or error.
+//
 // A finding carries the whole session (plugin, calls with inputs, rounds, delays, transport, seed) as
 // its detail; `harness atpsession -replay <finding or session json>` re-runs that session.
 //
@@ -395,7 +405,8 @@ func atpxBlob(uid string, size int) string {
 	return b.String()[:size]
 }
 
-// atpxBulkPlugin: step "bulk" (large outputs), step "slow" (stays in flight for `ms` milliseconds
+// atpxBulkPlugin: step "opt" (input with only optional / defaulted properties: `{}` is accepted, nil is
+// not), step "bulk" (large outputs), step "slow" (stays in flight for `ms` milliseconds
 // when sleep is set), step "sbulk" (like bulk, declares the signal "sig" and ignores it).
 func atpxBulkPlugin(sleep bool) *schema.CallableSchema {
 	in := func() *schema.ScopeSchema {
@@ -428,7 +439,22 @@ func atpxBulkPlugin(sleep bool) *schema.CallableSchema {
 	withSignal := schema.NewCallableStepWithSignals[any, any]("sbulk", in(), outputs(),
 		map[string]schema.CallableSignal{"sig": schema.NewCallableSignal[any, any]("sig", sigSchema, nil, func(context.Context, any, any) {})},
 		nil, nil, nil, func(ctx context.Context, _ any, input any) (string, any) { return handler(ctx, input) })
+	seven := "7"
+	optIn := schema.NewScopeSchema(schema.NewObjectSchema("OptInput", map[string]*schema.PropertySchema{
+		"uid":  atpsProp(schema.NewStringSchema(nil, nil, nil), false),
+		"size": schema.NewPropertySchema(schema.NewIntSchema(hx_i64(0), hx_i64(1<<20), nil), nil, false, nil, nil, nil, &seven, nil),
+	}))
+	optHandler := func(_ context.Context, input any) (string, any) {
+		m, _ := input.(map[string]any)
+		uid, ok := m["uid"].(string)
+		if !ok {
+			uid = "no-uid"
+		}
+		size, _ := m["size"].(int64)
+		return "success", map[string]any{"tag": uid, "blob": atpxBlob(uid, int(size))}
+	}
 	return schema.NewCallableSchema(
+		schema.NewCallableStep[any]("opt", optIn, outputs(), nil, optHandler),
 		schema.NewCallableStep[any]("bulk", in(), outputs(), nil, handler),
 		schema.NewCallableStep[any]("slow", in(), outputs(), nil, handler),
 		withSignal)
@@ -493,6 +519,72 @@ func atpxDupSpec(idx int, rnd *rand.Rand, seed int64) *atpxSpec {
 			add(c)
 		}
 		sp.Rounds = append(sp.Rounds, round)
+	}
+	return sp
+}
+
+// atpxRawInputSpec: raw shapes the schema rejects, on a step that would accept the empty object.
+func atpxRawInputSpec(idx int, rnd *rand.Rand, seed int64) *atpxSpec {
+	sp := &atpxSpec{Idx: idx, Stream: "rawinput", Bulk: true, Pattern: []string{"serial", "overlap"}[rnd.Intn(2)],
+		Transport: []string{"pipe", "chunked", "split"}[rnd.Intn(3)], Seed: seed, V1: idx%3 == 0}
+	shapes := []*hx.Val{
+		hx.Nil(),
+		hx.Nil(),
+		hx.StrAny(),
+		hx.StrAny([2]*hx.Val{hx.Str("uid"), hx.Str("u")}),
+		hx.StrAny([2]*hx.Val{hx.Str("uid"), hx.Nil()}),
+		hx.StrAny([2]*hx.Val{hx.Str("size"), hx.Nil()}),
+		hx.List(hx.Int("int64", 1)),
+		hx.List(),
+		hx.Str("just a string"),
+		hx.Int("int64", 5),
+		hx.Bool(true),
+		hx.StrAny([2]*hx.Val{hx.Str("uid"), hx.Str("v")}, [2]*hx.Val{hx.Str("size"), hx.Int("int64", 300)}),
+		hx.StrAny([2]*hx.Val{hx.Str("unknown"), hx.Int("int64", 1)}),
+	}
+	k := 3 + rnd.Intn(6)
+	for c := 0; c < k; c++ {
+		v := shapes[rnd.Intn(len(shapes))]
+		if c == 0 {
+			v = hx.Nil() // every session starts with the untyped nil (v1 sessions end at the first failure)
+		}
+		step := "opt"
+		if rnd.Intn(6) == 0 {
+			step = "bulk" // nil is rejected here before and after
+		}
+		sp.Calls = append(sp.Calls, atpxCall{RunID: fmt.Sprintf("n%d-%d", idx, c), Step: step, V: v})
+	}
+	return sp
+}
+
+// atpxBlankSpec: a call with a blank step ID on its own, then serial calls, then a burst.
+func atpxBlankSpec(idx int, rnd *rand.Rand, seed int64) *atpxSpec {
+	sp := &atpxSpec{Idx: idx, Stream: "blank", Bulk: true, Pattern: "rounds", Transport: []string{"pipe", "chunked", "split"}[rnd.Intn(3)], Seed: seed}
+	n := 0
+	call := func(step string) int {
+		run := fmt.Sprintf("k%d-%d", idx, n)
+		n++
+		c := atpxCall{RunID: run, Step: step, V: atpxBulkInput(run, rnd.Intn(1500), 0)}
+		if step != "" && rnd.Intn(5) == 0 {
+			c.V = hx.StrAny([2]*hx.Val{hx.Str("uid"), hx.Str(run)}, [2]*hx.Val{hx.Str("size"), hx.Str("large")})
+		}
+		sp.Calls = append(sp.Calls, c)
+		return len(sp.Calls) - 1
+	}
+	for i := rnd.Intn(3); i > 0; i-- {
+		sp.Rounds = append(sp.Rounds, []int{call("bulk")})
+	}
+	blanks := 1 + rnd.Intn(2)
+	for b := 0; b < blanks; b++ {
+		sp.Rounds = append(sp.Rounds, []int{call("")}) // alone: nothing else is in flight
+		for i := 1 + rnd.Intn(2); i > 0; i-- {
+			sp.Rounds = append(sp.Rounds, []int{call([]string{"bulk", "opt", "sbulk"}[rnd.Intn(3)])})
+		}
+		var burst []int
+		for i := 2 + rnd.Intn(4); i > 0; i-- {
+			burst = append(burst, call([]string{"bulk", "opt", "no-such-step"}[rnd.Intn(3)]))
+		}
+		sp.Rounds = append(sp.Rounds, burst)
 	}
 	return sp
 }
@@ -682,7 +774,10 @@ type atpxSessionResult struct {
 func atpxRunSession(sp *atpxSpec, timeout time.Duration) (out atpxSessionResult) {
 	calls, pattern, transport, v1, seed := sp.Calls, sp.Pattern, sp.Transport, sp.V1, sp.Seed
 	for i := range calls {
-		calls[i].Input = calls[i].V.ToGo()
+		calls[i].Input = nil // an absent / null input in a replayed session is the untyped nil
+		if calls[i].V != nil {
+			calls[i].Input = calls[i].V.ToGo()
+		}
 	}
 	find := func(format string, args ...any) { out.findings = append(out.findings, fmt.Sprintf(format, args...)) }
 	ref := sp.buildRef()
@@ -1170,6 +1265,18 @@ func atpxCmd(a Args) {
 	for i := 0; i < nSig; i++ {
 		jobs = append(jobs, atpxSignalSpec(n+nBulk+nReuse+nDup+i, brnd, a.Seed*5000011+int64(i), i%2 == 1))
 	}
+	// the rawinput and blank streams
+	nRaw, nBlank := 30, 16
+	if thorough {
+		nRaw, nBlank = 300, 200
+	}
+	base := n + nBulk + nReuse + nDup + nSig
+	for i := 0; i < nRaw; i++ {
+		jobs = append(jobs, atpxRawInputSpec(base+i, brnd, a.Seed*6000029+int64(i)))
+	}
+	for i := 0; i < nBlank; i++ {
+		jobs = append(jobs, atpxBlankSpec(base+nRaw+i, brnd, a.Seed*7000033+int64(i)))
+	}
 	results := make([]atpxSessionResult, len(jobs))
 	sem := make(chan struct{}, 16)
 	var wg sync.WaitGroup
@@ -1189,7 +1296,7 @@ func atpxCmd(a Args) {
 			if j.Stream == "bulk" {
 				timeout = 5 * time.Second
 			}
-			if j.Stream == "dup" || j.Stream == "signal" {
+			if j.Stream == "dup" || j.Stream == "signal" || j.Stream == "blank" || j.Stream == "rawinput" {
 				timeout = 4 * time.Second
 			}
 			results[ji] = atpxRunSession(j, timeout)
@@ -1215,6 +1322,8 @@ func atpxCmd(a Args) {
 		if j.Stream == "bulk" {
 			s.stats["bulk:executes"] += r.calls
 			s.stats["bulk:rounds"] += len(j.Rounds)
+		} else if j.Stream == "rawinput" || j.Stream == "blank" {
+			s.stats[j.Stream+":executes"] += r.calls
 		} else if j.Stream == "dup" {
 			s.stats["dup:executes"] += r.calls
 			s.stats["dup:refused"] += r.refused
